@@ -24,6 +24,24 @@ CHECKS = {
             "Node.flatten of every node of ~10^5 random trees and ~10^4 scan results is compared with an independent "
             "implementation of the stated rule; identity trees and undecoded scans must flatten unchanged; "
             "squash_replace compared where no overlap skipping applies. Exploration.", "2/C19"),
+    "C04": ("runtime monitoring: registry tap (hit snapshots before attachment) vs the same Node objects after the scan",
+            "Every kept hit of every search invocation is compared with its decoder-side snapshot: absolute position through the "
+            "enclosing contexts, span length, original slice, context-only ancestry. Synthetic registries (complete small "
+            "scopes + random) and the default registry on nested inputs. Exploration.", "2/C04"),
+    "C05": ("runtime monitoring: child-list ordering invariant + per-search fate-of-enclosed-hit monitor over tap logs",
+            "Engine-attached child lists must be laminar; hits enclosed by an earlier kept hit must be suppressed (decoded) or "
+            "nested (context), tallied at top level and inside contexts separately. Exploration.", "2/C05"),
+    "C06": ("runtime monitoring: executable reference model (interval nesting, absolute coordinates) compared node-for-node; "
+            "small-scope exhaustive + random synthetic registries + replay of recorded real hit streams",
+            "Engine output equals the independent model on ~3*10^6 synthetic configurations per quick run (complete enumeration of "
+            "the <=3-hit scopes on texts of length <=2, sampled beyond; thorough completes length 3 and samples 4) and on every real hit "
+            "stream recorded by the tap. Exploration, exhaustive only inside the stated scopes.", "2/C06"),
+    "C07": ("runtime monitoring: activation tap (depth argument per recursion level, decoder calls per level) + metamorphic k / k+1 pairs",
+            "Depth accounting is asserted at every scan_node activation; tree(k) is compared with tree(k+1) minus the deepest "
+            "search pass, for synthetic registries incl. always-decodable ones and for the default registry. Exploration.", "2/C07"),
+    "C08": ("runtime monitoring: differential oracle - sub-tree of every decoded node vs an independent scan_node of its value",
+            "For decoded nodes of every result (<=20 per tree) the children are compared with a fresh, untapped scan of a node of "
+            "the same type and value with the remaining depth. Exploration.", "2/C08"),
 }
 
 TODO = {}
